@@ -1,3 +1,3 @@
 Require Import ExtrOcamlBasic.
-From Eupsv Require Import Base.Base Model.PathAlg.
-Extraction "model.ml" keep_types env_prepend env_set env_unset exec_pacts elems uniq.
+From Eupsv Require Import Base.Base Model.PathAlg Model.PathAlgScript.
+Extraction "model.ml" keep_types env_prepend env_set env_unset exec_pacts elems uniq run_script.
